@@ -87,16 +87,17 @@ type Config struct {
 // Sys is one WAL instance, on a simulated disk (Disk != nil) or on the real
 // filesystem with the real bbolt metadata store (Real).
 type Sys struct {
-	Disk  *simdisk.Disk
-	Dir   string
-	Real  bool
-	Cfg   Config
-	W     *wal.WAL
-	Meta  *SimMeta
-	Rec   *RecMeta
-	MC    metrics.Collector
-	Codec wal.Codec // optional custom codec
-	Cnt   *Expect   // if set, API calls made by the harness are tallied here (metrics oracle)
+	Disk         *simdisk.Disk
+	Dir          string
+	Real         bool
+	Cfg          Config
+	W            *wal.WAL
+	Meta         *SimMeta
+	Rec          *RecMeta
+	MC           metrics.Collector
+	Codec        wal.Codec // optional custom codec
+	MetaCloseErr bool      // the metadata store's Close fails (once)
+	Cnt          *Expect   // if set, API calls made by the harness are tallied here (metrics oracle)
 }
 
 // RecMeta wraps the production BoltMetaDB and remembers the last state that
@@ -199,6 +200,7 @@ func (s *Sys) Open() error {
 		ms = s.Rec
 	} else {
 		s.Meta = NewSimMeta(s.Disk)
+		s.Meta.CloseErr = s.MetaCloseErr
 		ms = s.Meta
 	}
 	var w *wal.WAL
@@ -400,6 +402,7 @@ func ModelFromObs(o *Obs, prev *Model) *Model {
 		for k, v := range prev.Truncated {
 			m.Truncated[k] = v
 		}
+		m.Deleted = prev.Deleted
 	}
 	m.First, m.Last = o.First, o.Last
 	if o.Last > 0 {
